@@ -549,17 +549,26 @@ fn shapes(m: &Model, ctx: &mut Ctx) {
             ctx.violate("C18.shape", "array-template", &f.file, f.line, "SEQUENCE OF / SET OF must be rendered as an array type");
         }
     }
+    implied_flag(m, ctx, "C18.shape");
+    ctx.sample(json!({"shape_checks": ["object members/optional marks/index signature", "choice union", "enum members", "array template"]}));
+}
+
+/// EXTENSIBILITY IMPLIED in the TypeScript backend: the module default is reset per module, read by the renderers and handed
+/// on unchanged to every nested renderer (shared by C18.shape and C05.ts: "extensible exactly when it contains a marker or
+/// its module says EXTENSIBILITY IMPLIED" — an enclosing type's marker is not the module default).
+pub fn implied_flag(m: &Model, ctx: &mut Ctx, rule: &str) {
+    let env_rule = if rule.starts_with("C18") { "C18.env".to_string() } else { format!("{}:env", rule) };
     // EXTENSIBILITY IMPLIED: the module default reaches the renderers
     let gm = m.fns.iter().find(|f| f.name == "generate_module" && f.self_ty.as_deref() == Some("Typescript"));
     if let Some(gm) = gm {
-        ctx.oblige("C18.shape", "extensibility-implied", true);
+        ctx.oblige(rule, "extensibility-implied", true);
         let has_field = m.find_struct("Typescript", Some("typescript")).map(|st| st.fields.iter().any(|(n, _, _)| n == "extensibility_environment")).unwrap_or(false);
         let reads_env = m.fns.iter().filter(|f| f.module.starts_with("generator::typescript")).any(|f| tok(&f.block).contains("extensibility_environment"));
         if !reads_env || !has_field {
-            ctx.violate("C18.shape", "extensibility-implied-ignored", &gm.file, gm.line, "no fn of the TypeScript backend reads the module's extensibility default: in an EXTENSIBILITY IMPLIED module SEQUENCE/SET types without a marker get no index signature");
+            ctx.violate(rule, "extensibility-implied-ignored", &gm.file, gm.line, "no fn of the TypeScript backend reads the module's extensibility default: in an EXTENSIBILITY IMPLIED module SEQUENCE/SET types without a marker get no index signature");
         } else {
             // the field is reset from the module's own header before anything is rendered (as for the rasn backend)
-            reset_rule_for(m, ctx, "C18.env", "extensibility_environment", "Typescript");
+            reset_rule_for(m, ctx, &env_rule, "extensibility_environment", "Typescript");
             // every call of a renderer that takes the flag passes the backend's flag (not a constant)
             let takes_flag: Vec<String> = m.fns.iter().filter(|f| f.module.starts_with("generator::typescript") && f.self_ty.is_none() && f.sig.inputs.iter().any(|a| matches!(a, syn::FnArg::Typed(t) if tok(&t.ty) == "bool"))).map(|f| f.name.clone()).collect();
             let mut sites = 0;
@@ -573,23 +582,22 @@ fn shapes(m: &Model, ctx: &mut Ctx) {
                     sites += 1;
                     let last = c.args.iter().last().map(|a| tok(a)).unwrap_or_default();
                     let ok = own_flag.contains(&last) || last == "self.extensibility_implied()" || last.contains("self.extensibility_environment");
-                    ctx.oblige("C18.shape", &format!("implied-flag:{}->{}", f.name, n), true);
+                    ctx.oblige(rule, &format!("implied-flag:{}->{}", f.name, n), true);
                     if !ok {
-                        ctx.violate("C18.shape", &format!("implied-flag-not-passed-on:{}->{}", f.name, n), &f.file, model::line_of(syn::spanned::Spanned::span(&c)),
+                        ctx.violate(rule, &format!("implied-flag-not-passed-on:{}->{}", f.name, n), &f.file, model::line_of(syn::spanned::Spanned::span(&c)),
                             &format!("{} calls {}(.., {}): the module's EXTENSIBILITY IMPLIED default must be handed on unchanged (nested anonymous SEQUENCE / SET types are extensible too)", f.name, n, last));
                     }
                 }
             }
-            ctx.floor("C18.shape/implied-flag-call-sites", sites, 7);
+            ctx.floor(&format!("{}/implied-flag-call-sites", rule), sites, 7);
             if let Some(h) = m.fns.iter().find(|f| f.name == "extensibility_implied" && f.self_ty.as_deref() == Some("Typescript")) {
-                ctx.oblige("C18.shape", "extensibility_implied()", true);
+                ctx.oblige(rule, "extensibility_implied()", true);
                 if tok(&h.block) != "{self.extensibility_environment==ExtensibilityEnvironment::Implied}" {
-                    ctx.violate("C18.shape", "extensibility_implied()", &h.file, h.line, "extensibility_implied() must be `self.extensibility_environment == ExtensibilityEnvironment::Implied`");
+                    ctx.violate(rule, "extensibility_implied()", &h.file, h.line, "extensibility_implied() must be `self.extensibility_environment == ExtensibilityEnvironment::Implied`");
                 }
             }
         }
     }
-    ctx.sample(json!({"shape_checks": ["object members/optional marks/index signature", "choice union", "enum members", "array template"]}));
 }
 
 /// producers of category Union must not be placed under a postfix []
